@@ -268,7 +268,10 @@ def coq_obs(case, arrays):
 def coq_pobs(case, ok):
     sp = case["space"]
     if sp["t"] == "dict":
-        return "(PDict [" + "; ".join(f"({k}, {coq_tq(v['shape'], v['data'])})" for k, v in ok["items"]) + "])"
+        # a result dict is compared as a map: entries listed in the order of the observation dict
+        pos = {k: i for i, k in enumerate(case["order"])}
+        items = sorted(ok["items"], key=lambda kv: pos.get(kv[0], len(pos)))
+        return "(PDict [" + "; ".join(f"({k}, {coq_tq(v['shape'], v['data'])})" for k, v in items) + "])"
     if sp["t"] == "tuple":
         return "(PTuple [" + "; ".join(coq_tq(v["shape"], v["data"]) for v in ok["items"]) + "])"
     return f"(PLeaf {coq_tq(ok['shape'], ok['data'])})"
